@@ -2,8 +2,8 @@ package c10
 
 import (
 	"fmt"
-	"os"
 	"math"
+	"os"
 	"sort"
 	"strconv"
 	"strings"
@@ -169,7 +169,7 @@ func genGBCase(t *rapid.T) GBCase {
 		default:
 			pool = mixedKeyPool
 		}
-		n := rapid.IntRange(1, 6).Draw(t, "npalette")
+		n := rapid.SampledFrom([]int{1, 2, 3, 4, 5, 6, 8}).Draw(t, "npalette")
 		for i := 0; i < n; i++ {
 			palettes[j] = append(palettes[j], rapid.SampledFrom(pool).Draw(t, "keylit"))
 		}
